@@ -17,6 +17,7 @@ CONSTANTS
   AtomicGossip = TRUE
   AtomicExec = FALSE
   MaxDrop = 1
+  DropKinds = {"D", "R"}
   Depth = 150
   MaxDup = 4
   ShiftRanks = TRUE
